@@ -484,10 +484,10 @@ theorem scanCommodityOrText_ext (C : Classes) {z : Z} (h : HasLF z) :
 
 theorem scanInLine_ext (C : Classes) {z0 : Z} (h0 : HasLF z0) :
     scanInLine C (z0.ext x) = extR x (scanInLine C z0) := by
-  have hs := advWhile_ext x (· == 0x20) (by decide) h0
+  have hs := advWhile_ext x isBlank (by decide) h0
   simp only [scanInLine, skipSpaces, hs.1]
   have h := hs.2
-  generalize advWhile (fun x => x == 32) z0 = z at h ⊢
+  generalize advWhile isBlank z0 = z at h ⊢
   unfold scanInLineAt
   obtain ⟨ch, t, hz⟩ := h.cons
   have hm : LF ∈ ch :: t := by rw [← hz]; exact h
